@@ -174,6 +174,12 @@ def check_pair(ctx, key, da, db, mclass, shape, ma, mb):
     b_is_q = db[2] is not None
     if not (a_is_q or b_is_q):
         return
+    for name, X, isq, dim in (('a', A, a_is_q, da), ('b', B, b_is_q, db)):
+        if isq and not unpack(X)[2]:
+            ctx.violation('magnitude * unit of a dimensional unit is not a '
+                          'quantity object', {'unit': dim[1], 'class': dim[0]},
+                          {'got': repr(X)[:120]})
+            return
     va = np.array(ma) if (arr_a and a_is_q) else (
         0.0 if da[0] == 'bare zero' else ma[0])
     vb = np.array(mb) if (arr_b and b_is_q) else (
@@ -301,7 +307,7 @@ def check_pair(ctx, key, da, db, mclass, shape, ma, mb):
                 judge('**%s' % k, observe(operator.pow, Aabs, k), 'value',
                       base ** k, tuple(p * k for p in veca))
             if b_is_q:
-                o = observe(A.in_units, db[1])
+                o = observe(lambda: A.in_units(db[1]))
                 if same_vec(veca, vecb):
                     judge('in_units', o, 'value', va / _si(db[1]), ZERO7)
                 else:
